@@ -209,6 +209,7 @@ struct Dec {
     Modal m;
     NameTable cellnames, textstrings, propnames, propstrings;
     std::vector<model::MProp>* prop_target = nullptr;
+    std::vector<model::MProp> layer_name_props;  // properties of LAYERNAME records: read, not part of the layout
     model::MCell* cell = nullptr;
     int table_last_kind = -1;          // kind of the previous top-level record when it was a name record
     bool seen_end = false;
@@ -563,7 +564,7 @@ struct Dec {
                             r.uint();
                         }
                     }
-                    prop_target = nullptr;
+                    prop_target = &layer_name_props;
                 } break;
                 case 13: case 14: {
                     d.lib.cells.emplace_back();
